@@ -73,7 +73,7 @@ theorem InvFrom.mono {j j' w} (h : InvFrom j w) (hj : j ≤ j') : InvFrom j' w :
    fun k k' g g' c hk hk' => h.distinct k k' g g' c (Nat.le_trans hj hk) (Nat.le_trans hj hk')⟩
 
 theorem Frame.refl (j : Nat) (w : World) : Frame j w w :=
-  ⟨rfl, Nat.le_refl _, rfl, fun _ _ => rfl, fun _ _ _ => rfl, fun k g' c hg hc => Or.inl ⟨g', hg, hc⟩⟩
+  ⟨rfl, Nat.le_refl _, rfl, fun _ _ => rfl, fun _ _ _ => rfl, fun _ g' _ hg hc => Or.inl ⟨g', hg, hc⟩⟩
 
 theorem Frame.notOwned {j w w' c} (f : Frame j w w') (hc : c < w.nctx) (h : NotOwnedFrom j w c) :
     NotOwnedFrom j w' c := by
@@ -280,7 +280,7 @@ theorem BodyInv.exit {i c w0 g w t ts} (h : BodyInv i c w0 g w) (ht : g.toks = t
     simp only [TokChain] at hch
     refine ⟨by rw [hcur]; exact hch.2.1, h.cur, h.lt, h.wr, h.gw, h.tbl, ?_, h.no, ?_, ⟨h.good.obs, h.good.nrecs⟩, ?_⟩
     · rw [hcur]; exact h.inv.setCtx h.no
-    · simp only [World.setCtx, hcur, if_true, ho, List.tail_cons]
+    · simp only [World.setCtx, hcur, if_true, List.tail_cons]
       exact hch.2.2
     · rw [hcur]; exact h.fr.setCtx_right hg0 hc0
 
